@@ -28,7 +28,7 @@ def run_model07(scripts, mode="model"):
 def argv_of(line):
     f = line.split()
     if f[0] == "L": return [unhex(h).decode("latin-1") for h in f[2:]]
-    if f[0] == "H": return [unhex(h).decode("latin-1") for h in f[3:]]
+    if f[0] in ("H", "LO"): return [unhex(h).decode("latin-1") for h in f[3:]]
     return []
 
 def is_det(argv):
@@ -217,7 +217,14 @@ def handle_log(rng, sid, length):
 UNORDERED = PropertyCheck.UNORDERED | {"HGETALL"}
 
 def norm_g(line, with_vol, with_mem=True):
-    return norm_digest(line, with_mem=with_mem, with_vol=with_vol)
+    return norm_digest(line, with_mem=with_mem, with_vol=with_vol, round_floats=True)
+
+# commands that change a stored set / sorted set through its pointer: the memory figure of a node that ran them is
+# history-dependent (recorded finding KF-C19-inplace), a node restored from a snapshot accounts the dataset afresh
+INPLACE = {"SADD", "SREM", "SPOP", "SMOVE", "ZADD", "ZINCRBY", "ZREM", "ZPOPMIN", "ZPOPMAX", "ZMPOP",
+           "ZREMRANGEBYSCORE", "ZREMRANGEBYRANK", "ZREMRANGEBYLEX"}
+def has_inplace(script):
+    return any(argv_of(l) and argv_of(l)[0].upper() in INPLACE for l in script.lines if l.split()[0] in ("L", "H", "LO"))
 
 def compare07(script, impl_lines, model_lines, reply_opts=None, digest_opts=None):
     """node-versus-model; None when equal"""
@@ -288,7 +295,8 @@ def oracle07(script, impl_lines):
         gs = blocks(impl_lines, "G")
         with_vol = kind not in ("snap", "snap2")
         if gs:
-            last = [norm_g("G " + g, with_vol) for g in gs[-1]]
+            mem_ok = not (kind in ("snap", "snap2") and has_inplace(script))
+            last = [norm_g("G " + g, with_vol, mem_ok) for g in gs[-1]]
             if len(set(last)) > 1:
                 return "nodes hold different datasets after the same log: %s" % gs[-1]
         if kind not in ("snap", "snap2"):
